@@ -221,6 +221,12 @@ func monC02(c *Ctx, cs *RTCase, file []byte) bool {
 			}
 		}
 	}
+	if len(d.Failures) > 0 && sh.Meta["collapse_kinds"] != "" {
+		// a shape that exists to pin down ONE known defect: every way in which its files are
+		// wrong is the same finding
+		c.Out.Violate(Violation{Prop: "C02", Key: key(sh, "invalid_file"), Case: cs.ID, Shape: sh.Name, Detail: d.Failures[0].String()})
+		return false
+	}
 	if len(d.Failures) > 0 {
 		seen := map[string]bool{}
 		for _, f := range d.Failures {
